@@ -137,13 +137,12 @@ func (f *function) diffEnv() (bool, string, diff.ValueDiff, error) {
 		return true, "", nil, nil
 	}
 
-	oldEnv, ok := f.oldEnv.(*starlark.Dict)
-	if !ok {
-		return false, "", nil, fmt.Errorf("old environment is not a dict (%v)", oldEnv.Type())
-	}
-	newEnv, ok := f.newEnv.(*starlark.Dict)
-	if !ok {
-		return false, "", nil, fmt.Errorf("new environment is not a dict (%v)", newEnv.Type())
+	// The environment of a target whose callable is a builtin (e.g. a default target alias) is not a dict.
+	// Unequal environments of different shapes mean that the target is out of date, not that it is broken.
+	_, oldIsDict := f.oldEnv.(*starlark.Dict)
+	_, newIsDict := f.newEnv.(*starlark.Dict)
+	if !oldIsDict || !newIsDict {
+		return false, "environment changed", nil, nil
 	}
 
 	d, err := diff.DiffDepth(f.oldEnv, f.newEnv, 1000)
